@@ -157,7 +157,11 @@ def run_one(cond, exclude_known=False):
 
 def _run_one(cond, exclude_known=False):
     os.makedirs(SCRATCH, exist_ok=True)
-    safe = re.sub(r'[^A-Za-z0-9_]', '_', cond.name) + ('_xk' if exclude_known else '')
+    import hashlib
+    # distinct conditions must never share a wrapper file (names differing only in punctuation sanitise equally)
+    safe = re.sub(r'[^A-Za-z0-9_]', '_', cond.name)[:90] + '_' + hashlib.sha1(
+        repr((cond.name, cond.twin, sorted(cond.env.items()), sorted(cond.fixed.items()), cond.extra_pre)).encode()).hexdigest()[:10] + \
+        ('_xk' if exclude_known else '')
     path = os.path.join(SCRATCH, 'c_%s.py' % safe)
     with open(path, 'w') as f:
         f.write(_wrapper_source(cond, exclude_known))
